@@ -4,6 +4,7 @@ tree with a witness module from /verif/witness added as a test module, run the n
 usage: run_witness.py <witness-file> <test-name-filter> [ENV=VALUE ...]"""
 import os, shutil, subprocess, sys, tempfile
 VERIF = os.path.dirname(os.path.dirname(os.path.abspath(__file__)))
+REPO = os.environ.get("RULER_REPO", "/repo")   # (the registered commands never set it: they work on /repo; tools/par_seeds.sh does)
 def main():
     wfile, flt = sys.argv[1], sys.argv[2]
     extra = dict(a.split("=", 1) for a in sys.argv[3:])
@@ -11,11 +12,11 @@ def main():
     scratch = tempfile.mkdtemp(prefix="ruler_wit_", dir=os.environ.get("TMPDIR", "/tmp"))
     try:
         for item in ("src", "Cargo.toml", "Cargo.lock"):
-            s = os.path.join("/repo", item); d = os.path.join(scratch, item)
+            s = os.path.join(REPO, item); d = os.path.join(scratch, item)
             if os.path.isdir(s): shutil.copytree(s, d)
             else: shutil.copy(s, d)
-        if os.path.isdir("/repo/target"):
-            subprocess.run(["cp", "-r", "/repo/target", os.path.join(scratch, "target")], check=False)
+        if os.path.isdir(os.path.join(REPO, "target")):
+            subprocess.run(["cp", "-r", os.path.join(REPO, "target"), os.path.join(scratch, "target")], check=False)
         shutil.copy(os.path.join(VERIF, wfile), os.path.join(scratch, "src", modname + ".rs"))
         with open(os.path.join(scratch, "src", "main.rs"), "a") as f: f.write("\n#[cfg(test)]\nmod %s;\n" % modname)
         env = dict(os.environ, CARGO_NET_OFFLINE="true", **extra)
